@@ -24,7 +24,7 @@ type c19kCase struct {
 func TestVerifC19FRRK8s(t *testing.T) {
 	const interval = int64(3 * time.Second)
 	vw.Run(t, vw.Options{Property: "C19", Engine: "frrk8s-debouncer",
-		Rule: "1..12 UpdateConfig signals at inter-arrival times around the 3 s window (+-1 ns, equal, multiples) and a consumer that accepts events after 0..2 s, on the virtual clock; one reload event per window, at least one event after the last signal, bounded blocking; non-trivial = >=2 signals inside one window",
+		Rule:        "1..12 UpdateConfig signals at inter-arrival times around the 3 s window (+-1 ns, equal, multiples) and a consumer that accepts events after 0..2 s, on the virtual clock; one reload event per window, at least one event after the last signal, bounded blocking; non-trivial = >=2 signals inside one window",
 		Assumptions: []string{"go1.26.8 testing/synctest", "the reconciler reads the latest desired configuration when the event is handled, so one event after the last update suffices"}},
 		func(rt *rapid.T) c19kCase {
 			c := c19kCase{Consumer: rapid.SampledFrom([]int64{0, 0, 1, int64(time.Second), int64(2 * time.Second)}).Draw(rt, "consumer")}
